@@ -342,6 +342,64 @@ func c06ReturnExprs(fd *ast.FuncDecl) []string {
 	return out
 }
 
+// c06BodyTexts flattens the body of a small function into one source-text token per statement; an `if`
+// becomes "if <cond> {", its statements, "}" (and "} else {" …). Comments are not part of it.
+func c06BodyTexts(fd *ast.FuncDecl) []string {
+	var out []string
+	if fd == nil || fd.Body == nil {
+		return out
+	}
+	var walk func(list []ast.Stmt)
+	walk = func(list []ast.Stmt) {
+		for _, st := range list {
+			switch x := st.(type) {
+			case *ast.IfStmt:
+				hd := "if "
+				if x.Init != nil {
+					hd += c06src(x.Init) + "; "
+				}
+				out = append(out, hd+c06src(x.Cond)+" {")
+				walk(x.Body.List)
+				switch e := x.Else.(type) {
+				case *ast.BlockStmt:
+					out = append(out, "} else {")
+					walk(e.List)
+				case *ast.IfStmt:
+					out = append(out, "} else")
+					walk([]ast.Stmt{e})
+					continue
+				}
+				out = append(out, "}")
+			case *ast.BlockStmt:
+				walk(x.List)
+			default:
+				out = append(out, c06src(st))
+			}
+		}
+	}
+	walk(fd.Body.List)
+	return out
+}
+
+// c06CallArgTexts lists the argument lists (source text) of every call of `callee` inside fd.
+func c06CallArgTexts(fd *ast.FuncDecl, callee string) []string {
+	var out []string
+	if fd == nil || fd.Body == nil {
+		return out
+	}
+	ast.Inspect(fd.Body, func(n ast.Node) bool {
+		if ce, ok := n.(*ast.CallExpr); ok && exprName(ce.Fun) == callee {
+			as := make([]string, len(ce.Args))
+			for i, a := range ce.Args {
+				as[i] = c06src(a)
+			}
+			out = append(out, strings.Join(as, ", "))
+		}
+		return true
+	})
+	return out
+}
+
 func init() {
 	Register(Fact{Module: "C06", Gen: func(repo string) (string, error) {
 		_, cf, err := ParseFile(repo, "pkg/queue/constants.go")
@@ -518,6 +576,34 @@ func init() {
 		sb.WriteString("def isExpireCalls : List String := " + LeanStrList(CallSeq(ise)) + "\n")
 		sb.WriteString("def isExpireConds : List String := " + LeanStrList(c06IfConds(ise)) + "\n")
 		sb.WriteString("def isExpireLoop : List String := " + LeanStrList(c06RangeBodyKinds(ise)) + "\n")
+		// round 12: the replicator's index <-> sequence conversions (replica/replicator.go), the rewind at the
+		// start of a local replicator, the partition's index reset
+		_, rr, err := ParseFile(repo, "replica/replicator.go")
+		if err != nil {
+			return "", err
+		}
+		for _, m := range []string{"ReplicaIndex", "AckIndex", "AppendIndex", "ResetReplicaIndex", "ResetAppendIndex",
+			"SetAckIndex", "IgnoreMessage", "Consume", "Pending"} {
+			fd := FindFunc(rr, "replicator", m)
+			if fd == nil {
+				return "", fmt.Errorf("replicator.%s not found", m)
+			}
+			sb.WriteString("def repl" + m + "Body : List String := " + LeanStrList(c06BodyTexts(fd)) + "\n")
+		}
+		_, rl, err := ParseFile(repo, "replica/replicator_local.go")
+		if err != nil {
+			return "", err
+		}
+		nlr := FindFunc(rl, "", "NewLocalReplicator")
+		if nlr == nil {
+			return "", fmt.Errorf("NewLocalReplicator not found")
+		}
+		sb.WriteString("def localStartResetArgs : List String := " + LeanStrList(c06CallArgTexts(nlr, "lr.ResetReplicaIndex")) + "\n")
+		prr := FindFunc(rp, "partition", "ResetReplicaIndex")
+		if prr == nil {
+			return "", fmt.Errorf("partition.ResetReplicaIndex not found")
+		}
+		sb.WriteString("def partitionResetReplicaIndexBody : List String := " + LeanStrList(c06BodyTexts(prr)) + "\n")
 		return sb.String(), nil
 	}})
 }
